@@ -68,6 +68,8 @@
 #include <stdio.h>
 #include <stdlib.h>
 #include <string.h>
+#include <sys/wait.h>
+#include <unistd.h>
 #include "mc.h"
 #include "src/vbi.h"
 #include "src/hamm.h"
@@ -640,6 +642,21 @@ static void self_check(void)
                                      L_IN + 0, L_UNREG + 1 * 2 + 0,                                /* in(f0,u0): unreg(f1,u0) */
                                      L_RAISE + 1 };                                                /* raise(CAPTION) */
         uint64_t hash[2];
+        /* first in a child: on a tree that breaks the property this very scenario may trip the audit or ASan - that is a
+         * verdict for the exploration below to find and key, not a machinery error */
+        fflush(NULL);
+        pid_t pid = fork();
+        if (pid == 0) {
+                int rc0 = run(h, sizeof h, hash, (void *) &CFGS[0]);
+                static const unsigned char want0[10] = { 0, 1, 0, 1, 0, 1, 0, 1, 0, 1 };
+                if (rc0 || G.bad) _exit(3);
+                _exit((G.fixups != 1 || G.nscripts_run != 1 || G.nlog != 10 || memcmp(G.log, want0, 10)) ? 4 : 0);
+        }
+        int st = 0; waitpid(pid, &st, 0);
+        if (!(WIFEXITED(st) && (WEXITSTATUS(st) == 0 || WEXITSTATUS(st) == 4))) {
+                mc_note("self check scenario (a callback unregisters the next handler) fails on this tree: left to the exploration");
+                return;
+        }
         int rc = run(h, sizeof h, hash, (void *) &CFGS[0]);
         /* history: (f0,u0) [removes next] (f0,u1); probes: 3 raises + 1 transmission x 2 handlers */
         static const unsigned char want[10] = { 0, 1, 0, 1, 0, 1, 0, 1, 0, 1 };
